@@ -8,6 +8,9 @@ TB = ("Trusted: Lean 4.33.0 kernel; axioms propext/Quot.sound/Classical.choice o
       "working tree on every run (differential, exhaustive on the small axes, sampled elsewhere); Go stdlib semantics written into the model.")
 
 CLAIMS = {
+ "C09": dict(
+   text="Lean theorems (Properties/C09.lean): C09_roundtrip_partial - for every request the constructors build from specification-legal arguments (outside the known-finding region FC1/FC2 quantity 126..2000, which the library's own parsers refuse; test-pinned) all six parse paths (per-function and dispatcher for TCP; per-function, dispatcher, CRC-checking dispatcher for RTU; per-function RTU without the CRC trailer) return exactly that request, for any spare capacity; accepted_* - whatever any request parser accepts consists of the frame's own bytes at the specified offsets with quantities inside the limits, so out-of-range frames are never decoded. Tie to the code: constructor -> Bytes -> every parse path on all quantities 0..2200 (thorough 0..65535), all coil counts, all payload lengths; frames with every out-of-range quantity through per-function parsers and dispatchers.",
+   ref="DESIGN.md §3 C09", technique="Lean 4 proof (symbolic evaluation of parsers on encoded frames; decoder soundness) + differential correspondence check"),
  "C01": dict(
    text="Lean theorem C01_partial: for every framing, transaction id and argument record, if the model constructor accepts then the arguments are within the specification's limits, the encoded bytes equal Spec.adu (MBAP header with protocol id 0 and length = following bytes / unit first and CRC last, big-endian fields, byte count = payload length, coils LSB-first) and the frame is at most 260/256 bytes - for all inputs outside the two known-finding regions (FC16 with 124 registers, FC23 with 122..124 write registers: the code accepts them, tests pin the messages), whose witnesses are theorems too (C01_full_false). Tie to the code: all 20 constructors + Bytes() run against the model over every quantity 0..2200 (thorough: 0..65535), every coil count 0..2100, every payload length 0..300, the uint16 conversion wrap.",
    ref="DESIGN.md §3 C01", technique="Lean 4 proof (case analysis per constructor, list/BitVec arithmetic) + differential correspondence check"),
